@@ -151,11 +151,26 @@ class PathRun:
                 text = ast.unparse(node)
             except Exception:
                 text = ''
+        if '#' not in kind:
+            cond = z3.simplify(cond)
+            if z3.is_implies(cond) and z3.is_and(cond.arg(1)):
+                cond = z3.Or(z3.Not(cond.arg(0)), cond.arg(1))
         if z3.is_and(cond) and cond.num_args() > 1 and '#' not in kind:
             # one obligation per conjunct (finer diagnostics)
             for i, c in enumerate(cond.children()):
                 self.oblige(c, '%s#%d' % (kind, i), node, text)
             return
+        if z3.is_or(cond) and '#' not in kind:
+            # A => (B and C): one obligation per conjunct
+            ch = cond.children()
+            ands = [c for c in ch if z3.is_and(c)]
+            if len(ands) == 1 and ands[0].num_args() > 1:
+                rest = [c for c in ch if not c.eq(ands[0])]
+                for i, c in enumerate(ands[0].children()):
+                    self.oblige(
+                        z3.Or(*(rest + [c])), '%s#%d' % (kind, i), node, text,
+                    )
+                return
         name = '%s:%s:%s' % (fr.func, kind, text)
         ob = self.ex.obligations.get(name)
         if ob is None:
@@ -212,10 +227,31 @@ class PathRun:
         if self.spec_mode:
             return
         if self.catchable(exc):
+            # prune with the full context (quantified facts included): the
+            # exceptional / normal continuation may be excluded by an
+            # invariant the quantifier-free feasibility check cannot use
+            okf = self._full_feasible(ok)
+            exf = self._full_feasible(z3.Not(ok))
+            if okf and not exf:
+                self.st.assume(ok)
+                return
+            if exf and not okf:
+                self.st.assume(z3.Not(ok))
+                raise PyExc(exc, implicit=True)
             if not self.branch(ok, 'exc?' + exc):
                 raise PyExc(exc, implicit=True)
             return
         self.oblige(ok, exc, node)
+
+    def _full_feasible(self, c: Any) -> bool:
+        sv = self.st.solver
+        sv.set('timeout', 2000)
+        sv.push()
+        sv.add(c)
+        r = sv.check()
+        sv.pop()
+        sv.set('timeout', self.ex.timeout_ms)
+        return r != z3.unsat
 
     def catchable(self, exc: str) -> bool:
         for h in self.handlers:
@@ -294,6 +330,15 @@ class PathRun:
             fr.locs[lv.a] = val
             return
         if lv.kind == 'field':
+            if self.p.field_owner(lv.a.ty.cls, lv.b) is None:
+                setter = self.find_setter(lv.a.ty.cls, lv.b)
+                if setter is not None:
+                    defcls, node = setter
+                    self.call_function(
+                        node, [lv.a, val], {}, lv.a.ty.cls, defcls,
+                        '%s.%s.setter' % (defcls, lv.b), None,
+                    )
+                    return
             self.ex.write_field(st, lv.a, lv.b, val)
             return
         if lv.kind == 'ofield':
@@ -307,6 +352,23 @@ class PathRun:
         raise Unsupported('lv_write ' + lv.kind)
 
     _mutating = False
+
+    def find_setter(self, cls: str, name: str) -> Any:
+        for c in self.p.mro(cls):
+            ci = self.p.classes[c]
+            if ci.file is None:
+                continue
+            for top in self.p.module(ci.file).body:
+                if isinstance(top, ast.ClassDef) and top.name == c:
+                    for m in top.body:
+                        if isinstance(m, ast.FunctionDef) and m.name == name \
+                                and any(
+                                    isinstance(d, ast.Attribute)
+                                    and d.attr == 'setter'
+                                    for d in m.decorator_list
+                                ):
+                            return c, m
+        return None
 
     def unalias(self, x: Any) -> Any:
         return x.v if isinstance(x, Alias) else x
